@@ -785,7 +785,9 @@ func genSetValue(t *rapid.T, op *editOp, nonFinite bool) {
 			op.F = math.Float64bits([]float64{math.NaN(), math.Inf(1), math.Inf(-1)}[rapid.IntRange(0, 2).Draw(t, "nf")])
 		}
 	case "SetString", "SetStringBytes":
-		switch rapid.IntRange(0, 5).Draw(t, "sk") {
+		switch rapid.IntRange(0, 6).Draw(t, "sk") {
+		case 6:
+			op.S = mustDecode([]byte(lookalikeStrings[rapid.IntRange(0, len(lookalikeStrings)-1).Draw(t, "lookalike")]))
 		case 5:
 			op.S = nil // "Sending nil will add an empty string"
 		case 0:
